@@ -1,5 +1,5 @@
 (* C07: process-qualified names.  Proofs about DotModel.v. *)
-From Coq Require Import List Arith Bool ZArith Lia.
+From Coq Require Import List Arith Bool ZArith Lia Permutation.
 From Utap Require Import Scope ScopeProofs DotModel.
 Import ListNotations.
 
@@ -58,7 +58,7 @@ Proof. split; reflexivity. Qed.
 Theorem dot_sound (p : proc) x i t :
   dot p x = Some (i, t) ->
   exists t0, nth_error (p_frame p) i = Some (x, t0) /\ (forall j b, j < i -> nth_error (p_frame p) j = Some b -> fst b <> x) /\
-             t = if is_loc t0 then TBool else subst_all (p_map p) (trename (p_templ p) (p_id p) t0).
+             t = if is_loc t0 then TBool else subst_rounds (p_map p) (trename (p_templ p) (p_id p) t0).
 Proof.
   unfold dot. destruct (find_index x (p_frame p)) as [i'|] eqn:E; [|discriminate].
   destruct (find_index_spec _ _ _ E) as [[t0 Ht0] Hlt]. unfold member in *. rewrite Ht0. intros [= <- <-]. exists t0. auto.
@@ -101,54 +101,181 @@ End Meaning.
 
 Lemma bounds_subst_all m : forall t, bounds_of (subst_all m t) = map (bsubst_all m) (bounds_of t).
 Proof.
-  induction m as [|[x e] m IH]; intro t; [destruct t; reflexivity|].
+  induction m as [|[x e] m IH]; intro t; [destruct t; cbn; rewrite ?map_id; reflexivity|].
   change (subst_all ((x, e) :: m) t) with (subst_all m (tsubst x e t)). rewrite IH. destruct t; reflexivity.
+Qed.
+Lemma bounds_subst_rounds m t : bounds_of (subst_rounds m t) = map (bsubst_rounds m) (bounds_of t).
+Proof.
+  unfold subst_rounds, bsubst_rounds. induction (length m) as [|n IH]; cbn; [now rewrite map_id|].
+  rewrite bounds_subst_all, IH, map_map. reflexivity.
 Qed.
 Lemma bounds_rename a b t : bounds_of (trename a b t) = bounds_of t.
 Proof. destruct t; reflexivity. Qed.
 
-(* every bound of the type of P.x denotes, in any environment and under any meaning of the operators, what the declared bound
-   denotes in the environment the instantiation chain of P builds from its arguments *)
-Theorem dot_bound_meaning (p : proc) x i t t0 :
-  dot p x = Some (i, t) -> nth_error (p_frame p) i = Some (x, t0) -> is_loc t0 = false ->
-  exists bs', bounds_of t = bs' /\ length bs' = length (bounds_of t0) /\
-    forall V lit opsem r k b b', nth_error (bounds_of t0) k = Some b -> nth_error bs' k = Some b' ->
-      beval V lit opsem r b' = beval V lit opsem (env_of V lit opsem (p_map p) r) b.
+(* ---------- the order of a pass does not matter ---------- *)
+Lemma bsubst_notin x e b : ~ In x (fv b) -> bsubst x e b = b.
 Proof.
-  intros Hd Hn Hl. destruct (dot_sound _ _ _ _ Hd) as (t0' & Hn' & _ & ->). rewrite Hn in Hn'. injection Hn' as <-. rewrite Hl.
-  rewrite bounds_subst_all, bounds_rename. eexists; split; [reflexivity|]. split; [apply map_length|].
-  intros V lit opsem r k b b' Hb Hb'. rewrite nth_error_map, Hb in Hb'. injection Hb' as <-. apply eval_bsubst_all.
+  induction b as [z|s|o args IH] using bexp_ind'; cbn; intro H; [reflexivity | |].
+  - destruct (Nat.eqb_spec s x) as [->|]; [exfalso; apply H; left; reflexivity | reflexivity].
+  - f_equal. rewrite <- (map_id args) at 2. apply map_ext_in. intros a Ha. rewrite Forall_forall in IH. apply IH; [exact Ha|].
+    intro Hx. apply H. apply in_flat_map. exists a. auto.
 Qed.
-
-(* after the whole chain has been substituted no parameter is left *)
-Lemma fv_bsubst x e b y : In y (fv (bsubst x e b)) -> (In y (fv b) /\ y <> x) \/ In y (fv e).
+Lemma bsubst_all_op m : forall o args, bsubst_all m (BOp o args) = BOp o (map (bsubst_all m) args).
+Proof.
+  induction m as [|[x e] m IH]; intros o args; [cbn; now rewrite map_id|].
+  change (bsubst_all ((x, e) :: m) (BOp o args)) with (bsubst_all m (BOp o (map (bsubst x e) args))). rewrite IH, map_map. reflexivity.
+Qed.
+Lemma bsubst_all_lit m z : bsubst_all m (BLit z) = BLit z.
+Proof. induction m as [|[x e] m IH]; [reflexivity | exact IH]. Qed.
+Lemma bsubst_all_nokeys m : forall b, (forall y, In y (fv b) -> ~ In y (map fst m)) -> bsubst_all m b = b.
+Proof.
+  induction m as [|[x e] m IH]; intros b H; [reflexivity|].
+  change (bsubst_all ((x, e) :: m) b) with (bsubst_all m (bsubst x e b)).
+  rewrite bsubst_notin; [apply IH; intros y Hy Hin; apply (H y Hy); right; exact Hin | intro Hx; apply (H x Hx); left; reflexivity].
+Qed.
+Lemma tri_weaken m : forall seen seen', (forall y, In y seen' -> In y seen) -> tri seen m -> tri seen' m.
+Proof.
+  induction m as [|[x e] m IH]; intros seen seen' Hs; [trivial|]. intros (H1 & H2 & H3). repeat split.
+  - intro H. apply H1, Hs, H.
+  - apply (H2 y H).
+  - intro Hy. apply (proj2 (H2 y H)), Hs, Hy.
+  - apply (IH (x :: seen)); [|exact H3]. intros y [->|Hy]; [left; reflexivity | right; apply Hs, Hy].
+Qed.
+Lemma tri_key_notin m : forall seen x e, tri seen m -> In (x, e) m -> ~ In x seen.
+Proof.
+  induction m as [|[x0 e0] m IH]; intros seen x e; [intros _ []|]. intros (H1 & H2 & H3) [E|Hin]; [injection E as <- <-; exact H1|].
+  intro Hs. apply (IH _ _ _ H3 Hin). right. exact Hs.
+Qed.
+Lemma tri_fv_notin m : forall seen x e y, tri seen m -> In (x, e) m -> In y (fv e) -> ~ In y seen.
+Proof.
+  induction m as [|[x0 e0] m IH]; intros seen x e y; [intros _ []|]. intros (H1 & H2 & H3) [E|Hin] Hy; [injection E as <- <-; apply (H2 y Hy)|].
+  intro Hs. apply (IH _ _ _ _ H3 Hin Hy). right. exact Hs.
+Qed.
+(* the full substitution gives a parameter and its argument the same image *)
+Lemma full_key m : forall seen x e, tri seen m -> In (x, e) m -> bsubst_all m (BVar x) = bsubst_all m e.
+Proof.
+  induction m as [|[x0 e0] m IH]; intros seen x e; [intros _ []|]. intros (H1 & H2 & H3) [E|Hin].
+  - injection E as <- <-. change (bsubst_all m (bsubst x0 e0 (BVar x0)) = bsubst_all m (bsubst x0 e0 e0)).
+    rewrite (bsubst_notin x0 e0 e0) by (intro H; destruct (H2 _ H) as [H' _]; apply H'; reflexivity). cbn. now rewrite Nat.eqb_refl.
+  - change (bsubst_all m (bsubst x0 e0 (BVar x)) = bsubst_all m (bsubst x0 e0 e)).
+    assert (x <> x0) as Hne by (intro E; apply (tri_key_notin _ _ _ _ H3 Hin); left; symmetry; exact E).
+    rewrite (bsubst_notin x0 e0 e) by (intro H; apply (tri_fv_notin _ _ _ _ _ H3 Hin H); left; reflexivity).
+    cbn. destruct (Nat.eqb_spec x x0); [contradiction|]. apply (IH _ _ _ H3 Hin).
+Qed.
+Lemma full_step m x e b : triangular m -> In (x, e) m -> bsubst_all m (bsubst x e b) = bsubst_all m b.
+Proof.
+  intros Ht Hin. induction b as [z|s|o args IH] using bexp_ind'; cbn; [reflexivity | |].
+  - destruct (Nat.eqb_spec s x) as [->|]; [symmetry; apply (full_key _ _ _ _ Ht Hin) | reflexivity].
+  - rewrite !bsubst_all_op, map_map. f_equal. apply map_ext_in. intros a Ha. rewrite Forall_forall in IH. apply IH, Ha.
+Qed.
+Lemma full_pass m m' : triangular m -> (forall xe, In xe m' -> In xe m) -> forall b, bsubst_all m (bsubst_all m' b) = bsubst_all m b.
+Proof.
+  intros Ht. induction m' as [|[x e] m' IH]; intros Hsub b; [reflexivity|].
+  change (bsubst_all ((x, e) :: m') b) with (bsubst_all m' (bsubst x e b)).
+  rewrite IH by (intros xe H; apply Hsub; right; exact H). apply full_step; [exact Ht | apply Hsub; left; reflexivity].
+Qed.
+(* how many levels are wrapped around a parameter *)
+Fixpoint rank (m : list (sym * bexp)) (y : sym) : nat :=
+  match m with [] => 0 | (x, _) :: rest => if Nat.eqb y x then S (length rest) else rank rest y end.
+Lemma rank_le m y : rank m y <= length m.
+Proof. induction m as [|[x e] m IH]; cbn; [lia | destruct (Nat.eqb y x); lia]. Qed.
+Lemma rank_pos m y : 0 < rank m y <-> In y (map fst m).
+Proof.
+  induction m as [|[x e] m IH]; cbn; [split; [lia | tauto]|]. destruct (Nat.eqb_spec y x) as [->|Hn]; [split; [auto | lia]|].
+  rewrite IH. split; [auto | intros [E|H]; [congruence | exact H]].
+Qed.
+Lemma rank_lt m : forall seen x e y, tri seen m -> In (x, e) m -> In y (fv e) -> rank m y < rank m x.
+Proof.
+  induction m as [|[x0 e0] m IH]; intros seen x e y; [intros _ []|]. intros (H1 & H2 & H3) [E|Hin] Hy; cbn.
+  - injection E as <- <-. rewrite Nat.eqb_refl. destruct (Nat.eqb_spec y x0) as [->|]; [destruct (H2 _ Hy) as [H' _]; contradiction|].
+    pose proof (rank_le m y). lia.
+  - assert (x <> x0) as Hne by (intro E; apply (tri_key_notin _ _ _ _ H3 Hin); left; symmetry; exact E).
+    assert (y <> x0) as Hny by (intro E; apply (tri_fv_notin _ _ _ _ _ H3 Hin Hy); left; symmetry; exact E).
+    destruct (Nat.eqb_spec x x0); [contradiction|]. destruct (Nat.eqb_spec y x0); [contradiction|]. apply (IH _ _ _ _ H3 Hin Hy).
+Qed.
+Lemma fv_bsubst' x e b y : In y (fv (bsubst x e b)) -> (In y (fv b) /\ y <> x) \/ (In y (fv e) /\ In x (fv b)).
 Proof.
   induction b as [z|s|o args IH] using bexp_ind'; cbn; [tauto | |].
   - destruct (Nat.eqb_spec s x) as [->|Hn]; cbn; [tauto|]. intros [<-|[]]. left. split; [left; reflexivity | exact Hn].
   - rewrite !in_flat_map. intros (a' & Ha' & Hy). apply in_map_iff in Ha' as (a & <- & Ha). rewrite Forall_forall in IH.
-    destruct (IH a Ha Hy) as [[H1 H2]|H]; [left; split; [exists a; auto | exact H2] | right; exact H].
+    destruct (IH a Ha Hy) as [[H1 H2]|[H1 H2]]; [left; split; [exists a; auto | exact H2] | right; split; [exact H1 | exists a; auto]].
 Qed.
-Theorem bsubst_all_closed m : forall b, triangular m -> (forall y, In y (fv b) -> In y (map fst m)) -> fv (bsubst_all m b) = [].
+(* one pass, in any order, lowers the highest level that still occurs *)
+Lemma pass_lowers m h : triangular m -> forall rem b, (forall xe, In xe rem -> In xe m) ->
+  (forall y, In y (fv b) -> rank m y <= S h /\ (rank m y = S h -> In y (map fst rem))) ->
+  forall y, In y (fv (bsubst_all rem b)) -> rank m y <= h.
 Proof.
-  induction m as [|[x e] m IH]; intros b Ht Hb.
-  - cbn in *. destruct (fv b) as [|y l]; [reflexivity | destruct (Hb y (or_introl eq_refl))].
-  - destruct Ht as (He & _ & Ht). change (bsubst_all ((x, e) :: m) b) with (bsubst_all m (bsubst x e b)). apply IH; [exact Ht|].
-    intros y Hy. destruct (fv_bsubst _ _ _ _ Hy) as [[Hy1 Hne]|Hy1]; [|apply He, Hy1].
-    destruct (Hb y Hy1) as [E|Hin]; [cbn in E; congruence | exact Hin].
+  intros Ht. induction rem as [|[x e] rem IH]; intros b Hsub Hb y Hy.
+  - destruct (Hb y Hy) as [H1 H2]. destruct (Nat.eq_dec (rank m y) (S h)) as [E|]; [destruct (H2 E) | lia].
+  - change (bsubst_all ((x, e) :: rem) b) with (bsubst_all rem (bsubst x e b)) in Hy.
+    apply (IH (bsubst x e b)); [intros xe H; apply Hsub; right; exact H | | exact Hy].
+    intros z Hz. destruct (fv_bsubst' _ _ _ _ Hz) as [[H1 H2]|[H1 H2]].
+    + destruct (Hb z H1) as [H3 H4]. split; [exact H3|]. intro E. destruct (H4 E) as [E'|H5]; [cbn in E'; congruence | exact H5].
+    + pose proof (rank_lt m [] x e z Ht (Hsub _ (or_introl eq_refl)) H1). destruct (Hb x H2) as [H3 _]. split; [lia | intro; lia].
 Qed.
-(* ... but only in this order: applied the other way round the inner parameter's argument stays unsubstituted *)
-Example order_matters :
+Lemma rounds_lower m m' : triangular m -> Permutation m m' -> forall k b,
+  (forall y, In y (fv b) -> rank m y <= k) -> forall y, In y (fv (iter k (bsubst_all m') b)) -> rank m y = 0.
+Proof.
+  intros Ht Hp. assert (forall j k b, (forall y, In y (fv b) -> rank m y <= j + k) -> forall y, In y (fv (iter k (bsubst_all m') b)) -> rank m y <= j) as H.
+  { intros j k. revert j. induction k as [|k IH]; intros j b Hb y Hy; [cbn in Hy; specialize (Hb y Hy); lia|].
+    cbn in Hy. apply (pass_lowers m j Ht m' (iter k (bsubst_all m') b)); [intros xe H; apply (Permutation_in _ (Permutation_sym Hp) H) | | exact Hy].
+    intros z Hz. split; [apply (IH (S j) b); [intros w Hw; specialize (Hb w Hw); lia | exact Hz]|].
+    intro E. apply (Permutation_in z (Permutation_map fst Hp)). apply rank_pos. lia. }
+  intros k b Hb y Hy. specialize (H 0 k b Hb y Hy). lia.
+Qed.
+(* the result of the code's passes is the substitution of the chain, innermost level first, whatever order the map iterates in *)
+Theorem rounds_any_order m m' b : triangular m -> Permutation m m' -> bsubst_rounds m' b = bsubst_all m b.
+Proof.
+  intros Ht Hp. unfold bsubst_rounds.
+  assert (forall k c, bsubst_all m (iter k (bsubst_all m') c) = bsubst_all m c) as Hs.
+  { induction k as [|k IH]; intro c; [reflexivity|]. cbn. rewrite full_pass; [apply IH | exact Ht | intros xe H; apply (Permutation_in _ (Permutation_sym Hp) H)]. }
+  rewrite <- (Hs (length m') b). symmetry. apply bsubst_all_nokeys. intros y Hy Hk.
+  rewrite <- (Permutation_length Hp) in Hy.
+  pose proof (rounds_lower m m' Ht Hp (length m) b (fun z _ => rank_le m z) y Hy). apply rank_pos in Hk. lia.
+Qed.
+(* and no parameter of the chain is left in it *)
+Theorem rounds_closed m m' b y : triangular m -> Permutation m m' -> In y (fv (bsubst_rounds m' b)) -> ~ In y (map fst m).
+Proof.
+  intros Ht Hp Hy Hk. unfold bsubst_rounds in Hy. rewrite <- (Permutation_length Hp) in Hy.
+  pose proof (rounds_lower m m' Ht Hp (length m) b (fun z _ => rank_le m z) y Hy). apply rank_pos in Hk. lia.
+Qed.
+
+(* every bound of the type of P.x denotes, in any environment and under any meaning of the operators, what the declared bound
+   denotes in the environment the instantiation chain of P builds from its arguments *)
+Theorem dot_bound_meaning (p : proc) (m : list (sym * bexp)) x i t t0 :
+  triangular m -> Permutation m (p_map p) ->
+  dot p x = Some (i, t) -> nth_error (p_frame p) i = Some (x, t0) -> is_loc t0 = false ->
+  length (bounds_of t) = length (bounds_of t0) /\
+  forall V lit opsem r k b b', nth_error (bounds_of t0) k = Some b -> nth_error (bounds_of t) k = Some b' ->
+    beval V lit opsem r b' = beval V lit opsem (env_of V lit opsem m r) b.
+Proof.
+  intros Ht Hp Hd Hn Hl. destruct (dot_sound _ _ _ _ Hd) as (t0' & Hn' & _ & ->). rewrite Hn in Hn'. injection Hn' as <-. rewrite Hl.
+  rewrite bounds_subst_rounds, bounds_rename. split; [apply map_length|].
+  intros V lit opsem r k b b' Hb Hb'. rewrite nth_error_map, Hb in Hb'. injection Hb' as <-.
+  rewrite (rounds_any_order m _ b Ht Hp). apply eval_bsubst_all.
+Qed.
+Theorem dot_no_parameter_left (p : proc) (m : list (sym * bexp)) x i t b y :
+  triangular m -> Permutation m (p_map p) -> dot p x = Some (i, t) -> In b (bounds_of t) -> In y (fv b) -> ~ In y (map fst m).
+Proof.
+  intros Ht Hp Hd Hb Hy. destruct (dot_sound _ _ _ _ Hd) as (t0 & _ & _ & ->).
+  destruct (is_loc t0); [destruct Hb|]. rewrite bounds_subst_rounds, bounds_rename in Hb. apply in_map_iff in Hb as (b0 & <- & _).
+  exact (rounds_closed m _ b0 y Ht Hp Hy).
+Qed.
+
+(* a single pass is not enough when the map happens to iterate the outer level first *)
+Example one_pass_depends_on_order :
   let m := [(1, BOp 0 [BVar 2; BLit 1000]); (2, BLit 3)] in
-  bsubst_all m (BVar 1) = BOp 0 [BLit 3; BLit 1000] /\ bsubst_all (rev m) (BVar 1) = BOp 0 [BVar 2; BLit 1000].
-Proof. split; reflexivity. Qed.
+  bsubst_all m (BVar 1) = BOp 0 [BLit 3; BLit 1000] /\ bsubst_all (rev m) (BVar 1) = BOp 0 [BVar 2; BLit 1000] /\
+  bsubst_rounds (rev m) (BVar 1) = BOp 0 [BLit 3; BLit 1000].
+Proof. repeat split; reflexivity. Qed.
 (* only identifiers are replaced: an index or field expression rooted at a parameter keeps its shape *)
 Example subst_keeps_structure :
   bsubst 1 (BVar 9) (BOp 2 [BVar 1; BLit 1]) = BOp 2 [BVar 9; BLit 1].
 Proof. reflexivity. Qed.
 
 Example dot_example :
-  (* T(const int[0,2000] n) { int[0,n+105] v; clock x; L0 }   Q(k) = T(k + 1000);  P = Q(3) *)
-  let p := mkproc 9 7 [(1, TConstRange (BLit 0) (BLit 2000)); (2, TRange (BLit 0) (BOp 0 [BVar 1; BLit 105])); (3, TClock); (4, TLoc)] [(1, BOp 0 [BVar 2; BLit 1000]); (2, BLit 3)] in
+  (* T(const int[0,2000] n) { int[0,n+105] v; clock x; L0 }   Q(k) = T(k + 1000);  P = Q(3); the map iterates k before n *)
+  let p := mkproc 9 7 [(1, TConstRange (BLit 0) (BLit 2000)); (2, TRange (BLit 0) (BOp 0 [BVar 1; BLit 105])); (3, TClock); (4, TLoc)] [(2, BLit 3); (1, BOp 0 [BVar 2; BLit 1000])] in
   dot p 2 = Some (1, TRange (BLit 0) (BOp 0 [BOp 0 [BLit 3; BLit 1000]; BLit 105])) /\ dot p 4 = Some (3, TBool) /\ dot p 5 = None /\
-  triangular (p_map p).
+  triangular (rev (p_map p)).
 Proof. cbn. repeat split; try reflexivity; try tauto; intros; cbn in *; intuition (try lia; try discriminate). Qed.
